@@ -648,11 +648,31 @@ theorem flatten_to_reshape_partial (s : Shape) (out : Option Shape) (axis : Nat)
     reshapeTarget l tgt false = some (flattenSpec l axis) :=
   flatten_core s out axis tgt h hax l hs hpos hout
 
-/-- **D6.**  With zero-size dims the statement fails: `Flatten(axis=2)` of `2×0×3` becomes
-`Reshape(x, [0,3])`, whose `0` copies dim 0 (= 2): 6 ≠ 0 elements, the runtime rejects it. -/
-theorem flatten_to_reshape_full_refuted :
+/-- Since commit 02f546a the rule refuses an input with a *static* zero dim, so for inputs without unnamed
+dims the only hypothesis left is about the binding: **every symbol of the input shape is bound to a positive
+value**. -/
+theorem flatten_to_reshape_symbols_positive (s : Shape) (out : Option Shape) (axis : Nat) (tgt : List Int)
+    (h : flattenTarget (some s) out (axis : Int) = some tgt) (hax : axis ≤ s.length)
+    (hu : hasUnknown s = false)
+    (σ : String → Nat) (l : List Int) (hs : Admits σ s l) (hnn : ∀ d ∈ l, 0 ≤ d)
+    (hsym : ∀ a, Dim.sym a ∈ s → 0 < σ a)
+    (hout : ∀ o, out = some o → Admits σ o (flattenSpec l axis)) :
+    reshapeTarget l tgt false = some (flattenSpec l axis) :=
+  flatten_core s out axis tgt h hax l hs
+    (pos_of_symbols_pos hs (flatten_fires_no_static_zero s out _ tgt h) hu hnn hsym) hout
+
+/-- The rule never fires on a statically zero-size input any more. -/
+theorem flatten_refuses_static_zero (s : Shape) (out : Option Shape) (axisAttr : Int) (h : Dim.known 0 ∈ s) :
+    flattenTarget (some s) out axisAttr = none := by
+  cases ht : flattenTarget (some s) out axisAttr with
+  | none => rfl
+  | some tgt => exact absurd h (flatten_fires_no_static_zero s out axisAttr tgt ht)
+
+/-- Regression witness (static half of D6, fixed by 02f546a): `Flatten(axis=2)` of `2×0×3` became
+`Reshape(x, [0,3])`, whose `0` copies dim 0 (= 2): 6 ≠ 0 elements, the runtime rejected it. -/
+theorem flatten_to_reshape_static_zero_prefix_refuted :
     ¬ (∀ (s : Shape) (out : Option Shape) (axis : Nat) (tgt : List Int),
-        flattenTarget (some s) out (axis : Int) = some tgt → axis ≤ s.length →
+        flattenTargetBefore02f546a (some s) out (axis : Int) = some tgt → axis ≤ s.length →
         ∀ (σ : String → Nat) (l : List Int), Admits σ s l →
           (∀ o, out = some o → Admits σ o (flattenSpec l axis)) →
           reshapeTarget l tgt false = some (flattenSpec l axis)) := by
@@ -661,8 +681,10 @@ theorem flatten_to_reshape_full_refuted :
     (by simp only [Admits, Dim.Admits]; decide) (by intro o ho; cases ho)
   revert this; decide
 
-/-- The symbolic variant: `Flatten(axis=1)` of `[N, M]` becomes `Reshape(x, [0,-1])`, rejected at `N = 0`
-(the original returns shape `[0, M]`). -/
+example : flattenTarget (some [.known 2, .known 0, .known 3]) none 2 = none := by decide
+
+/-- **D6, still open (symbolic half).**  The positivity hypothesis cannot be dropped: `Flatten(axis=1)` of
+`[N, M]` becomes `Reshape(x, [0,-1])`, rejected at `N = 0` (the original returns shape `[0, M]`). -/
 theorem flatten_to_reshape_symbolic_zero_refuted :
     ¬ (∀ (σ : String → Nat) (l : List Int), Admits σ [.sym "N", .sym "M"] l →
         ∀ tgt, flattenTarget (some [.sym "N", .sym "M"]) none 1 = some tgt →
@@ -672,5 +694,38 @@ theorem flatten_to_reshape_symbolic_zero_refuted :
   revert this; decide
 
 example : flattenTarget (some [.sym "N", .known 2, .known 3]) none 1 = some [0, 6] := by decide
+
+/-! ## `ScatterAllDynamic` -/
+
+/-- When the rule fires, the number of rows the index chain `Range(0, Gather(Shape(data, start=0), axis), 1)`
+enumerates equals the first dimension of the scattered tensor for every binding — the update covers whole
+rows `0 … d-1`, so `Identity(updates)` is right.  (`onnxShapeSlice l 0 none = l`: with `start=0` the gathered
+entry is `data.shape[axis]`, the entry the check looks at.) -/
+theorem scatter_all_dynamic_sound (a : Int) (s t : Shape)
+    (h : scatterAllDynamic (some 0) (some a) (some s) (some t) = true)
+    (σ : String → Nat) (l lt : List Int) (hs : Admits σ s l) (ht : Admits σ t lt) :
+    ∃ v, pyIndex (onnxShapeSlice l 0 none) a = some v ∧ lt.head? = some v := by
+  simp only [scatterAllDynamic] at h
+  have hsl : onnxShapeSlice l 0 none = l := by
+    rw [onnxShapeSlice_eq_pySlice]
+    simp [pySlice, pyClamp]
+  rw [hsl]
+  cases hd1 : pyIndex s a with
+  | none => simp only [hd1] at h; cases h
+  | some d1 =>
+    cases t with
+    | nil => simp only [hd1, List.head?_nil] at h; cases h
+    | cons d2 t' =>
+      simp only [hd1, List.head?_cons] at h
+      cases lt with
+      | nil => simp only [Admits] at ht
+      | cons w lt' =>
+        simp only [Admits] at ht
+        obtain ⟨v, hv, hav⟩ := admits_pyIndex hs a hd1
+        exact ⟨v, hv, by simp only [List.head?_cons, same_dim_sound d1 d2 h σ v w hav ht.1]⟩
+
+example : scatterAllDynamic (some 0) (some 1) (some [.sym "N", .sym "M"]) (some [.sym "M", .known 2]) = true := by decide
+example : scatterAllDynamic (some 1) (some 0) (some [.sym "N", .sym "M"]) (some [.sym "N", .known 2]) = false := by decide
+example : scatterAllDynamic none (some 0) (some [.sym "N", .sym "M"]) (some [.sym "N", .known 2]) = false := by decide
 
 end OV.Props.C09
